@@ -57,6 +57,83 @@ func (b *bmcSys) evalPred(fv *FuncV) *term.T {
 	return f.Or(disj...)
 }
 
+// pruneConstCells replaces, in the symbolic heap, the cells that no extracted
+// path writes by their initial values. Reports whether anything changed.
+func (b *bmcSys) pruneConstCells() bool {
+	written := map[*term.T]bool{}
+	for _, o := range b.outcomes {
+		for v := range o.chanUpd {
+			written[v] = true
+		}
+		for _, p := range o.paths {
+			for v := range p.upd {
+				written[v] = true
+			}
+		}
+	}
+	sub := map[*term.T]*term.T{}
+	for _, cv := range b.cells {
+		if !written[cv.v] && !b.constCells[cv.v] {
+			// arena slots are written through ite-chains only when allocated: keep them
+			if strings.HasPrefix(cv.obj.Name, "ar") && strings.Contains(cv.obj.Name, ".slot") {
+				continue
+			}
+			sub[cv.v] = cv.init
+		}
+	}
+	if len(sub) == 0 {
+		return false
+	}
+	if b.constCells == nil {
+		b.constCells = map[*term.T]bool{}
+	}
+	for v := range sub {
+		b.constCells[v] = true
+	}
+	b.symHeap = b.substHeap(b.symHeap, sub)
+	return true
+}
+
+func (b *bmcSys) substHeap(h map[*Object]Value, sub map[*term.T]*term.T) map[*Object]Value {
+	memo := map[int]*term.T{}
+	var walk func(v Value) Value
+	walk = func(v Value) Value {
+		switch x := v.(type) {
+		case *term.T:
+			return b.f.Subst(x, sub, memo)
+		case *StructV:
+			o := &StructV{F: make([]Value, len(x.F))}
+			for i := range x.F {
+				o.F[i] = walk(x.F[i])
+			}
+			return o
+		case *ArrayV:
+			o := &ArrayV{E: make([]Value, len(x.E))}
+			for i := range x.E {
+				o.E[i] = walk(x.E[i])
+			}
+			return o
+		case *IfaceV:
+			if x.Tag != nil {
+				t, p := b.f.Subst(x.Tag, sub, memo), b.f.Subst(x.Pay, sub, memo)
+				if t.IsConst() {
+					if t.I == 0 {
+						return &IfaceV{}
+					}
+					return b.w.ifaceFromTag(b.setup, int(t.I), p)
+				}
+				return &IfaceV{Tag: t, Pay: p}
+			}
+		}
+		return v
+	}
+	out := map[*Object]Value{}
+	for o, v := range h {
+		out[o] = walk(v)
+	}
+	return out
+}
+
 // predHeap is the symbolic heap with never-written cells replaced by their
 // (constant) initial values, so that state predicates do not fork on them.
 func (b *bmcSys) predHeap() map[*Object]Value {
@@ -221,6 +298,7 @@ func (b *bmcSys) check() {
 	}
 	for round := 0; ; round++ {
 		b.procs, b.locs, b.outcomes = nil, nil, nil
+		b.extractRound++
 		for i, p := range m.procs {
 			bp := &bproc{idx: i, p: p}
 			bp.start = &bloc{id: len(b.locs), proc: bp, kind: opStart, key: "start", desc: "start"}
@@ -251,6 +329,13 @@ func (b *bmcSys) check() {
 		// loads and stores must be steps of their own (else a read-modify-write or a
 		// receive-then-send through such a cell would be atomic in the model and a
 		// lost update invisible). Extraction is repeated with those accesses visible.
+		// cells that no path writes (captured parameters such as n, the capacity,
+		// the input array) are constants: extract again with their values known, so
+		// that goroutine code reading them does not fork on them
+		if b.pruneConstCells() {
+			round--
+			continue
+		}
 		if !b.findRacy() || round >= 3 {
 			break
 		}
